@@ -3,6 +3,9 @@ package c02
 import (
 	"fmt"
 
+	"github.com/hashicorp/hcl/v2"
+	"github.com/hashicorp/hcl/v2/hclsyntax"
+
 	"hx/lib"
 )
 
@@ -13,7 +16,7 @@ import (
 func longFiles(cx *lib.Ctx) {
 	res := cx.Res
 	R := cx.R.Fork()
-	n := cx.Scale(12, 200)
+	n := cx.Scale(16, 240)
 	for i := 0; i < n; i++ {
 		r := R.Fork()
 		g := newGen(r)
@@ -42,9 +45,57 @@ func longFiles(cx *lib.Ctx) {
 			}
 			return b
 		}
+		// an attribute value nested `depth` brackets deep (a mix of ( [ { f( ), with the innermost value in the middle)
+		deepValue := func(depth int) *attr {
+			var toks []lib.Tk
+			var closers []string
+			for d := 0; d < depth; d++ {
+				switch r.Intn(4) {
+				case 0:
+					toks = append(toks, lib.Tk{Text: "("})
+					closers = append(closers, ")")
+				case 1:
+					toks = append(toks, lib.Tk{Text: "["})
+					closers = append(closers, "]")
+				case 2:
+					toks = append(toks, lib.Tk{Text: "{"}, lib.Tk{Text: "k"}, lib.Tk{Text: "="})
+					closers = append(closers, "}")
+				default:
+					toks = append(toks, lib.Tk{Text: "f"}, lib.Tk{Text: "("})
+					closers = append(closers, ")")
+				}
+			}
+			toks = append(toks, lib.Tk{Text: "1"})
+			for d := len(closers) - 1; d >= 0; d-- {
+				toks = append(toks, lib.Tk{Text: closers[d]})
+			}
+			canon := (&lib.Layout{}).Render(toks, true)
+			e, d := hclsyntax.ParseExpression([]byte(canon), "", hcl.InitialPos)
+			if d.HasErrors() {
+				return g.value(false)
+			}
+			return &attr{toks: toks, Canon: canon, Dump: lib.DumpExpr(e, false)}
+		}
 		var tree *body
 		kind := ""
-		switch i % 3 {
+		switch i % 4 {
+		case 3:
+			// deep values in newline-sensitive places, with more content after them
+			kind = "deep-expression"
+			tree = &body{}
+			for k, dp := range []int{30 + r.Intn(30), 60 + r.Intn(10), 64 + r.Intn(80)} {
+				a := deepValue(dp)
+				a.Name = fmt.Sprintf("deep%d", k)
+				tree.Items = append(tree.Items, item{A: a})
+				after := g.value(false)
+				after.Name = fmt.Sprintf("after%d", k)
+				tree.Items = append(tree.Items, item{A: after})
+			}
+			inner := deepValue(64 + r.Intn(40))
+			inner.Name = "deep"
+			tail := g.value(false)
+			tail.Name = "tail"
+			tree.Items = append(tree.Items, item{B: &block{Type: "blk", Labels: []string{"x"}, Body: &body{Items: []item{{A: inner}, {A: tail}, {B: &block{Type: "leaf", Body: &body{}}}}}}})
 		case 0:
 			kind = "siblings"
 			tree = mk(130 + r.Intn(300))
